@@ -75,6 +75,10 @@ def scan_module(prog, m):
                     what = "reseeds the global generator" if d.endswith(("seed", "setstate", "set_state")) else \
                         "creates a private generator that the global seeds do not control"
                     out.append(("E1", n.lineno, "", f"{d}(...)", f"{d} {what}"))
+            elif d in ("numpy.empty", "numpy.empty_like", "numpy.ndarray"):
+                counts["E2"] += 1
+                out.append(("E2", n.lineno, "", f"{d}(...)", f"{d} returns uninitialised memory: results depend on what the "
+                            f"process allocated before"))
             elif any(d.startswith(c) or d == c for c in CLOCKS):
                 counts["E2"] += 1
                 out.append(("E2", n.lineno, "", f"{d}(...)", f"{d} makes results depend on wall-clock time / OS entropy / identity"))
@@ -150,6 +154,10 @@ def check(run):
         run.ok("E4", "package", "no mutable module/class-level state, no mutable default argument, no global statement")
     _seeds(run, prog)
     _fixture(run, prog)
+    # objects handed in by the caller (instance, target, feature-name list) are shared with later runs: in-place
+    # changes make a replay depend on library objects used before (C15 NOMUT clauses)
+    from .c06 import depends_on
+    depends_on(run, "C15", {"NOMUT"})
 
 
 def _seeds(run, prog):
